@@ -450,7 +450,7 @@ def body_C08(ctx):
 def body_C14(ctx):
     import roundtrip as R
     rng = ctx.rng
-    progs = R.triple_progs(5 if ctx.quick() else 1) + [R.random_prog(rng) for _ in range(1500 if ctx.quick() else 20000)]
+    progs = R.triple_progs(8 if ctx.quick() else 1) + [R.random_prog(rng) for _ in range(1000 if ctx.quick() else 8000)]
     reals, bad = R.run(ctx, progs, kinds=G.KINDS)
     ctx.k1_reals += reals[:3]
     for r in reals:
